@@ -77,6 +77,7 @@ def build_model():
 
 
 def step_model(c):
+    c.groups = ["c09"]
     ok, log = build_model()
     if not ok:
         c.violation("model does not build: " + log[-300:], {"theorem_or_correspondence": "extraction/ocaml build (group c09)", "log": log, "kind": "model-build"}, False)
